@@ -205,10 +205,15 @@ let () =
              let i = idx (if cancel then AHandBack else AClose) paths_taken in
              Hashtbl.replace entered g true;
              Hashtbl.replace steps g (len_taken (int_of_nat' i) - 1);
-             [SEnter g; STake (g, i); SAct g]                 (* ... up to the call of f *)
+             let panics = List.exists (fun u -> u.[0] = 'p' && gnum u = g) raw in
+             if panics then [SEnter g; STake (g, i)]          (* the call of f does not return *)
+             else [SEnter g; STake (g, i); SAct g]            (* ... up to the call of f *)
            | 'c' | 'd' ->
              let k = (try Hashtbl.find steps g with Not_found -> 0) in
              List.init k (fun _ -> SAct g)
+           | 'p' ->
+             (* f panicked: the deferred recover path (the first one) runs to its end *)
+             SPanicF (g, O) :: List.init (List.length (List.hd paths_panic)) (fun _ -> SAct g)
            | 'r' -> [SEnter g; SReadClosed (g, idx ARet paths_closed); SAct g]
            | 'x' -> [SEnter g; SCtxDone g]
            | _ -> failwith "once event") raw in
